@@ -48,6 +48,7 @@ type c10Listener struct {
 	errors         []string
 	acks           atomic.Int64
 	slowEvery      int
+	errFalse       bool          // OnError returns false
 	blockAt        int           // > 0: the callback of the blockAt-th event blocks until release is closed
 	release        chan struct{} // (a burst piles up behind one busy callback)
 	boundAtConnect bool
@@ -91,7 +92,7 @@ func (l *c10Listener) OnError(err error) bool {
 	l.errors = append(l.errors, err.Error())
 	l.mu.Unlock()
 	l.acks.Add(1)
-	return true
+	return !l.errFalse // the library must cope with either answer
 }
 
 func rcvbufErrors() int64 {
@@ -262,7 +263,7 @@ func c10(c *Ctx) {
 		}
 		addr := fmt.Sprintf("127.0.0.3:%d", port)
 		u := mkClient(ClientCfg{Bind: "127.0.0.1:0", Listen: addr, Timeout: time.Second})
-		lst := &c10Listener{addr: addr}
+		lst := &c10Listener{addr: addr, errFalse: cycle%2 == 1}
 		if cycle%3 == 1 {
 			lst.slowEvery = 5 + r.Pick(10)
 		}
